@@ -95,6 +95,7 @@ type converter struct {
 	mapBuilder         *annotations.MapBuilder
 	updater            annotations.Updater
 	globalConfig       *annotations.Mapper
+	globalUpdated      bool
 	tcpsvcAnnotations  map[*hatypes.TCPServicePort]*annotations.Mapper
 	hostAnnotations    map[*hatypes.Host]*annotations.Mapper
 	backendAnnotations map[*hatypes.Backend]*annotations.Mapper
@@ -102,6 +103,9 @@ type converter struct {
 }
 
 func (c *converter) ReadAnnotations(backend *hatypes.Backend, services []*api.Service, pathLinks []*hatypes.PathLink) {
+	// the gateway converter runs before this one: the global config, which has
+	// the cross namespace permissions the annotations are read with, comes first
+	c.updateGlobalConfig()
 	mapper := c.mapBuilder.NewMapper()
 	for _, service := range services {
 		source := &annotations.Source{
@@ -214,6 +218,14 @@ func (c *converter) syncDefaultBackend() {
 	}
 }
 
+// updateGlobalConfig applies the global config once per full sync
+func (c *converter) updateGlobalConfig() {
+	if !c.globalUpdated {
+		c.updater.UpdateGlobalConfig(c.haproxy, c.globalConfig)
+		c.globalUpdated = true
+	}
+}
+
 func (c *converter) syncFull() {
 	ingList, err := c.cache.GetIngressList()
 	if err != nil {
@@ -221,7 +233,7 @@ func (c *converter) syncFull() {
 		return
 	}
 	sortIngress(ingList)
-	c.updater.UpdateGlobalConfig(c.haproxy, c.globalConfig)
+	c.updateGlobalConfig()
 	c.syncDefaultBackend()
 	for _, ing := range ingList {
 		c.syncIngress(ing)
